@@ -37,3 +37,5 @@ def run(R):
     c = R.call(h, "band", [a, b])
     R.verify("and/bitwise", [a, b], [c], z3.BoolVal(True), c.out == (a & b))
     R.verify_noub("and/no-UB", [a, b], [c], z3.BoolVal(True))
+    # the optimised code computes what the source computes (every wrapper, clang -O2)
+    R.tv_guard(h, UNITS)
